@@ -96,7 +96,7 @@ class C19(Prop):
     harness_bin = "prom"
     harness_sub = "c19"
     build_flags = ("-race",)   # own binary (cmd/prom); a data race makes the harness exit 66
-    sizes = {"quick": 1500, "thorough": 30000}
+    sizes = {"quick": 1500, "thorough": 20000}
     gen_names = ("g_prom_", "prometheus.go", "GenProm")
     rule = ("histories of 1..8 sessions (4..40 groups of steps, 15% of the groups hold 2..5 steps on distinct sessions that are "
             "injected concurrently) through the real NewPrometheusMiddleware with a fresh registry per case: start, end "
